@@ -5,9 +5,9 @@ package main
 
 import (
 	"fmt"
-	"hash/fnv"
 	"go/constant"
 	"go/types"
+	"hash/fnv"
 	"strings"
 
 	"golang.org/x/tools/go/ssa"
@@ -594,10 +594,10 @@ func (e *OracleEnv) Int(key string) int64 {
 }
 
 // Str terms: S("key") for a symbol, K("text") for a constant.
-func S(key string) string { return "s:" + key }
+func S(key string) string  { return "s:" + key }
 func K(text string) string { return "c:" + text }
 
-func (e *OracleEnv) Eq(a, b string) bool        { return e.ch.eqStr(a, b) }
+func (e *OracleEnv) Eq(a, b string) bool { return e.ch.eqStr(a, b) }
 
 // Pred mirrors the model of strings.Contains/HasPrefix/HasSuffix/EqualFold
 // over two symbolic strings: true when the strings are equal, else the atom.
@@ -607,10 +607,10 @@ func (e *OracleEnv) Pred(name, a, b string) bool {
 	}
 	return e.Bool(name + "(" + a + "," + b + ")")
 }
-func (e *OracleEnv) Cmp(a, b string) int        { return e.ch.cmpTime(a, b) }
-func (e *OracleEnv) IsZero(a string) bool       { return e.ch.isZeroTime(a) }
-func (e *OracleEnv) Decided(key string) bool    { _, ok := e.ch.memo[key]; return ok }
-func (e *OracleEnv) Order() string              { return e.ch.times.String() }
+func (e *OracleEnv) Cmp(a, b string) int          { return e.ch.cmpTime(a, b) }
+func (e *OracleEnv) IsZero(a string) bool         { return e.ch.isZeroTime(a) }
+func (e *OracleEnv) Decided(key string) bool      { _, ok := e.ch.memo[key]; return ok }
+func (e *OracleEnv) Order() string                { return e.ch.times.String() }
 func (e *OracleEnv) Valuation() map[string]string { return e.ch.valuation() }
 
 type DTXSpec struct {
